@@ -161,7 +161,7 @@ def classify(check, sim, sc, verdict, obs):
         hook = getattr(check, 'hang_signature', None)
         if hook is not None:
             try:
-                sig = hook(kind, report, sig) or sig
+                sig = hook(kind, report, sig, sc) or sig
             except Exception:
                 pass
         vio.append((sig,
@@ -333,7 +333,15 @@ def runner_main(check, prop, tier, base_seed, k, n, total, deadline, outdir, kno
     while i < total:
         if time.monotonic() > deadline or os.path.exists(stopfile):
             break
-        case = make_case(check, prop, tier, base_seed, i)
+        try:
+            case = make_case(check, prop, tier, base_seed, i)
+        except Exception:
+            if len(agg['errors']) < 3:
+                agg['errors'].append({'index': i, 'seed': derive_seed(base_seed, prop, tier, i), 'verdict': 'scenario-generator-raised',
+                                      'report': traceback.format_exc(), 'scenario': None, 'sim': None})
+            agg['cls']['harness-error'] = agg['cls'].get('harness-error', 0) + 1
+            i += n
+            continue
         res = run_forked(check, case)
         agg['runs'] += 1
         agg['cls'][res['cls']] = agg['cls'].get(res['cls'], 0) + 1
